@@ -51,7 +51,7 @@ structure StpPost (cfg : Cfg) (oD oM d k : Nat) (st st' : St) (r : Nat × Nat) :
   frame : FramePost oD oM st st'
   ok : r.2 = EOK → ShapeAt cfg d k r.1 st st'
   fail_ptr : r.2 ≠ EOK → r.1 = 0
-  fail : r.2 ≠ EOK → r.2 ≠ ESUNTERM → StrPost cfg oD oM st' r.2
+  fail : r.2 ≠ EOK → (r.2 ≠ ESUNTERM ∨ cfg.fixStpUnterm = true) → StrPost cfg oD oM st' r.2
 
 theorem stp_fail_post (cfg : Cfg) (oD oM d k code : Nat) (st : St) (hrw : RW st oD oM) (hoM : 0 < oM)
     (hne : code ≠ EOK) :
@@ -92,7 +92,7 @@ theorem stpLoop_succ (cfg : Cfg) (isN onDest : Bool) (B oD oM : Nat) (srcbos : B
         if c = 0 then stpEok cfg isN d (k+1)
         else
           if untermB srcbos (if isN then slen - 1 else slen + 1) then do
-            handlerS ESUNTERM
+            (if cfg.fixStpUnterm then handleError cfg oD oM ESUNTERM else handlerS ESUNTERM)
             pure (0, ESUNTERM)
           else stpLoop cfg isN onDest B oD oM srcbos k (d+1) (s+1) (if isN then slen - 1 else slen + 1)) := by
   cases srcbos <;> rfl
@@ -146,14 +146,27 @@ theorem stpLoop_ok (cfg : Cfg) (isN onDest : Bool) (B oD oM : Nat) (hoM : 0 < oM
         · simp only [hc, if_false]
           by_cases hu : ∃ sb, srcbos = some sb ∧ sb ≤ (if isN = true then slen - 1 else slen + 1)
           · rw [if_pos ((untermB_iff _ _).2 hu)]
-            refine ⟨(0, ESUNTERM), { st.upd d (st.data s) with events := (st.upd d (st.data s)).events ++ [.handler .str ESUNTERM] },
-              by simp [handlerS, exec_bind], ⟨?_, fun h => absurd h (by decide), fun _ => rfl, fun _ h => absurd rfl h⟩, fun _ => ?_⟩
-            · exact ⟨rfl, rfl, rfl, rfl, fun a ha => St.upd_data_ne _ _ _ _ (by omega)⟩
-            · obtain ⟨sb, h1, h2⟩ := hu
+            have hun : ∃ sb, srcbos = some sb ∧ (isN = true → sb < slen) := by
+              obtain ⟨sb, h1, h2⟩ := hu
               refine ⟨sb, h1, fun hn => ?_⟩
               simp only [hn, if_true] at h2
               have : slen ≠ 0 := fun h => hsl ⟨hn, h⟩
               omega
+            cases hfx : cfg.fixStpUnterm with
+            | false =>
+              refine ⟨(0, ESUNTERM), { st.upd d (st.data s) with events := (st.upd d (st.data s)).events ++ [.handler .str ESUNTERM] },
+                by simp [handlerS, exec_bind], ⟨?_, fun h => absurd h (by decide), fun _ => rfl,
+                  fun _ h => by rcases h with h | h
+                                · exact absurd rfl h
+                                · rw [hfx] at h; cases h⟩, fun _ => hun⟩
+              exact ⟨rfl, rfl, rfl, rfl, fun a ha => St.upd_data_ne _ _ _ _ (by omega)⟩
+            | true =>
+              obtain ⟨st', he, hp⟩ := stp_fail_post cfg oD oM d (k+1) ESUNTERM (st.upd d (st.data s))
+                (RW.of_sameMeta (SameMeta.upd _ _ _) hrw) hoM (by decide)
+              refine ⟨(0, ESUNTERM), st', ?_, ⟨(upd_frame oD oM d _ st (by omega)).trans hp.frame, fun h => absurd h (by decide),
+                fun _ => rfl, fun _ _ => hp.fail (by decide) (Or.inr hfx)⟩, fun _ => hun⟩
+              simp only [↓reduceIte]
+              exact he
           · rw [if_neg (fun h => hu ((untermB_iff _ _).1 h))]
             obtain ⟨r, st', he, hp, hun⟩ := ih (d+1) (s+1) (if isN = true then slen - 1 else slen + 1)
               (st.upd d (st.data s)) (by intro a; exact hall a) (RW.of_sameMeta (SameMeta.upd _ _ _) hrw) (by omega)
@@ -224,7 +237,7 @@ def OutcomeP (dest dmax : Nat) (st : St) (p : Prog (Nat × Nat)) (Q : Nat × Nat
 structure StpQ (cfg : Cfg) (dest dmax : Nat) (st st' : St) (r : Nat × Nat) : Prop where
   ok : r.2 = EOK → ShapeAt cfg dest dmax r.1 st st'
   fail_ptr : r.2 ≠ EOK → r.1 = 0
-  post : r.2 ≠ ESUNTERM → StrPost cfg dest dmax st' r.2
+  post : (r.2 ≠ ESUNTERM ∨ cfg.fixStpUnterm = true) → StrPost cfg dest dmax st' r.2
 
 theorem StpQ.of_post {cfg : Cfg} {dest dmax : Nat} {st st' : St} {r : Nat × Nat}
     (h : StpPost cfg dest dmax dest dmax st st' r) : StpQ cfg dest dmax st st' r := by
